@@ -108,6 +108,11 @@ CLAIMED = {
    note=TB + "Re-encoding is proved for bytes in the encoder's image; for arbitrary bytes nanoserde (the dependency) decodes any Option tag != 1 as None, so 'for all decodable bytes' is false of the dependency and not claimed. nanoserde / serde_derive / bincode 1.3 (fixint LE, u64 lengths, u32 variant index) are modelled, not verified. A length prefix of 2^60 makes the dependency abort on allocation; such streams are not generated.",
    technique="Coq proof (prefix-law codec combinators; rope refinement corollary) + translator for discriminants + byte-level differential execution",
    design="5/C08"),
+ 'C18': dict(
+   text="PARTIAL. Machine-checked proof (Coq) about a cost semantics: hir_mem returns the peak number of live working cells (cost-table cells, the two-row buffers, change-list slots, chain boxes) of hirschberg_impl on the SAME recursion and data-dependent split points as the functional model; theorem: peak <= (CUTOFF + INSERT_COST + DELETE_COST + 6) * (n + m + 1) for ALL inputs, with the side condition CUTOFF <= 64 re-proved on the translated constants — so never a table of n*m cells. Tie: a counting global allocator in the harness measures the peak of live heap bytes during /repo's hirschberg(); on sizes the model can evaluate, measured <= 32 B * (model peak + retained) + the entry point's pointer vectors; on large sizes (quick: up to 3000 x 2500; thorough: 20000 x 20000) measured <= the proven bound in bytes. The translator checks that the derive's ordered templates call hirschberg and never levenshtein.",
+   note=TB + "Partial because the cost semantics is a model of allocator-visible behaviour, validated by measurement, not derived from the code; what 'allocates' lives in Vec/Box of the standard library. The proof covers the algorithmic claim (linear working set on every input).",
+   technique="Coq proof of a linear bound on an instrumented cost model + counting-allocator measurement on /repo",
+   design="5/C18"),
 }
 NA_REASON = "check not wired into the manifest yet at this commit (build in progress; see DESIGN.md section 5 for the planned theorem and tie)"
 
